@@ -61,11 +61,28 @@ func cronField(rng *mon.RNG, kind string) string {
 			lo := rng.Range(b[0], b[1])
 			return fmt.Sprintf("%d-%d/%d", lo, rng.Range(lo, b[1]), rng.Range(1, 5))
 		case w < 12:
-			if kind == "mon" {
-				return rng.PickStr("jan", "FEB", "mar-jun", "DEC")
-			}
-			if kind == "dow" {
-				return rng.PickStr("sun", "MON", "tue-fri", "SAT", "?")
+			if kind == "mon" || kind == "dow" {
+				// names in seeded random spellings (see names_test.go): single, range, list, step
+				pool := monthNames
+				if kind == "dow" {
+					pool = dowNames
+					if rng.Chance(1, 6) {
+						return "?"
+					}
+				}
+				lo := rng.Intn(len(pool))
+				hi := rng.Range(lo, len(pool)-1)
+				switch rng.Intn(5) {
+				case 0:
+					return pool[lo] // all lower case
+				case 1:
+					return pipelineSpelling(rng, pool[lo]) + "-" + pipelineSpelling(rng, pool[hi])
+				case 2:
+					return pipelineSpelling(rng, pool[lo]) + "," + pipelineSpelling(rng, pool[hi])
+				case 3:
+					return fmt.Sprintf("%s-%s/%d", pipelineSpelling(rng, pool[lo]), pipelineSpelling(rng, pool[hi]), rng.Range(2, 3))
+				}
+				return pipelineSpelling(rng, pool[lo])
 			}
 			if kind == "dom" {
 				return "?"
